@@ -7,6 +7,8 @@ each call must equal the model of that call alone.
 """
 from __future__ import annotations
 
+import os
+
 from .. import cborr, cose, gen, hexr, suitwalk, world
 from ..cborr import enc
 from ..prng import Stream
@@ -339,7 +341,7 @@ class Storage(Machine):
         return vs
 
     @staticmethod
-    def _write_kconfig(host, kname, rows):
+    def _write_kconfig(host, kname, rows, rel=None):
         lines = ["# generated", "CONFIG_SOMETHING=y", "SB_CONFIG_OTHER=0x10"]
         for n, (role, (v, c)) in enumerate(rows):
             tag = KCONFIG_ROLE_NAMES.get(role, role)
@@ -352,7 +354,7 @@ class Storage(Machine):
                 ov, oc = rows[(n + 1) % len(rows)][1] if len(rows) > 1 else ("nordicsemi.com", "nRF54H20_sample_app")
                 lines += [f'# SB_CONFIG_SUIT_MPI_{tag}_VENDOR_NAME="{ov}"', f'#SB_CONFIG_SUIT_MPI_{tag}_CLASS_NAME="{oc}"',
                           f"# SB_CONFIG_SUIT_MPI_{tag}_EXTRA is not set", ""]
-        host.write(f"{kname}.config", "\n".join(lines) + "\n")
+        host.write(rel or f"{kname}.config", "\n".join(lines) + "\n")
 
     # -- mpi -----------------------------------------------------------------------------------------------------------
     def _mpi(self, host, model, op, prop):
@@ -444,27 +446,44 @@ class Storage(Machine):
             return []
         out_dir = op["dir"]
         host.mkdir(out_dir)
+        # every fourth call is made the way a build script makes it: from the project directory, with relative paths for
+        # the inputs, the output directory and the configuration - and the output directory holds the .config of an earlier
+        # build under the same relative name (other assignments), which is *not* the file the call names
+        rel_mode = op["i"] % 4 == 1
+        out_arg = out_dir if rel_mode else host.path(out_dir)
+        if rel_mode and op["kconfig"]:
+            others = [k for k in sorted(model["kconfigs"]) if k != op["kconfig"] and model["kconfigs"][k] != model["kconfigs"][op["kconfig"]]]
+            if others:
+                self._write_kconfig(host, others[0], model["kconfigs"][others[0]], rel=f"{out_dir}/{op['kconfig']}.config")
+                ex["relative_config_with_decoy"] = ex.get("relative_config_with_decoy", 0) + 1
         before = host.tree(out_dir)
-        inputs = [host.path(model["envs"][n]["rel"]) for n in op["envs"]]
-        kpath = host.path(op["kconfig"] + ".config") if op["kconfig"] else None
+        inputs = [model["envs"][n]["rel"] if rel_mode else host.path(model["envs"][n]["rel"]) for n in op["envs"]]
+        kpath = ((op["kconfig"] + ".config") if rel_mode else host.path(op["kconfig"] + ".config")) if op["kconfig"] else None
 
         def run_once(fl):
-            if op["entry"] == "cli":
-                argv = ["image", "boot"]
-                for p in inputs:
-                    argv += ["--input-file", p]
-                argv += ["--storage-output-directory", host.path(out_dir), "--storage-address", self.num(op["addr"], (op["i"], "sa"))]
-                argv = self.drop_defaults(argv, {"--storage-address": 0x0E1ED000}, op["i"])
-                if kpath:
-                    argv += ["--config-file", kpath]
-                return host.cli(argv, kind="image_boot", faults=fl)
+            prev = os.getcwd()
+            if rel_mode:
+                os.chdir(host.root)
+            try:
+                if op["entry"] == "cli":
+                    argv = ["image", "boot"]
+                    for p in inputs:
+                        argv += ["--input-file", p]
+                    argv += ["--storage-output-directory", out_arg, "--storage-address", self.num(op["addr"], (op["i"], "sa"))]
+                    argv = self.drop_defaults(argv, {"--storage-address": 0x0E1ED000}, op["i"])
+                    if kpath:
+                        argv += ["--config-file", kpath]
+                    return host.cli(argv, kind="image_boot", faults=fl)
 
-            def run():
-                from suit_generator.cmd_image import ImageCreator
+                def run():
+                    from suit_generator.cmd_image import ImageCreator
 
-                ImageCreator.create_files_for_boot(inputs, host.path(out_dir), op["addr"], kpath, soc=op["soc"])
+                    ImageCreator.create_files_for_boot(inputs, out_arg, op["addr"], kpath, soc=op["soc"])
 
-            return host.tool(run, kind="image_boot_lib", faults=fl)
+                return host.tool(run, kind="image_boot_lib", faults=fl)
+            finally:
+                if rel_mode:
+                    os.chdir(prev)
 
         o = run_once(faults)
         self.note(model, o)
